@@ -49,7 +49,6 @@ class Lexer(object):
     t_FALSE = "False"
     t_LBRACK = r"\["
     t_LPAREN = r"\("
-    t_PLAIN_STRING = r"[^\#\:\,\=\(\)\[\]\"\'\r\n]+"
     t_RBRACK = r"\]"
     t_RPAREN = r"\)"
     t_TRUE = "True"
@@ -80,6 +79,12 @@ class Lexer(object):
     @TOKEN(r"[\r\n]+")
     def t_newline(self, t):
         t.lexer.lineno += _count_newlines(t.value)
+
+    @TOKEN(r"[^\#\:\,\=\(\)\[\]\"\'\r\n]+")
+    def t_PLAIN_STRING(self, t):
+        # Blanks between an unquoted value and the next delimiter or comment are layout, not part of the value
+        t.value = t.value.rstrip(" \t")
+        return t
 
     def t_error(self, t):
         raise SyntaxError("Illegal character {0} at position {1}".format(t.value[0], t.lexpos))
